@@ -341,3 +341,25 @@ func Verif_C13_finished_remote_unit_survives_its_ttl() {
 	wk.cancel()
 	verifapi.Quiesce()
 }
+
+// Verif_C13_unreachable_node_means_pending_not_failed: remote work submitted to a node that cannot be
+// reached right now: the submitter is told the job was submitted (the daemon keeps trying in the
+// background), and the unit is reported Pending - not Failed, from which a later successful start
+// would have to move it back. A cancel of it is "pending" too, not an error.
+func Verif_C13_unreachable_node_means_pending_not_failed() {
+	dir := verifapi.TempDir()
+	wk := verifWorkceptor(dir)
+	verifapi.FixRandom("unit0096")
+	cfo := verifNewCFO("unix")
+	cfo.stdin = []byte("in")
+	resp, err := wk.verifCommand(cfo, map[string]interface{}{"command": "work", "subcommand": "submit", "node": "R", "worktype": "echo", "tlsclient": "tls"})
+	verifapi.Quiesce()
+	verifapi.Cover("submit-answered")
+	verifapi.Assert("submission-to-an-unreachable-node-is-accepted-as-pending", verifapi.All(err == nil, resp != nil, resp["result"] == "Job Submitted"))
+	id, _ := resp["unitid"].(string)
+	unit := wk.w.activeUnits[id]
+	verifapi.Assert("unit-known", unit != nil)
+	verifapi.Assert("unit-not-reported-failed-while-the-daemon-keeps-trying", unit.Status().State == WorkStatePending)
+	wk.cancel()
+	verifapi.Quiesce()
+}
